@@ -8,6 +8,13 @@ last-in first-out statement.  The values are z3 terms moved through pickle / dee
 are discharged by the solver under the path condition; the branch structure (assigned / kept / new == old, the latter
 arising inside ``ParameterCollection.restoreBackup``) is enumerated exhaustively by forking.
 
+Scenario dimensions enumerated on top of assigned / kept / scope root: the KIND of value (scalar, array, list, dict
+entry, None, and NO value at all: a parameter without default that was never assigned reads as ParameterError from
+``p[name]`` and must do so again after the scope); caches that are filled or EMPTY when the scope is opened (both
+through ``_setCache`` and through the derived quantity ``Block.getArea()``); in nested scopes the position of every
+assignment (before / inside / after the inner scope) independently per quantity, so that "assigned only inside the
+inner scope, nothing else touched on that object, kept by both scopes" is one of the enumerated histories.
+
 A keep-set names parameter DEFINITIONS, so it applies to that parameter on every object of the class beneath the scope
 root (``kept``).  Serial numbers: constructors and ``copy.deepcopy`` hand out fresh numbers (inductive step over the
 global counter); a pickle round trip deliberately preserves the number (transport of the same object) and is outside
@@ -27,6 +34,7 @@ import armi.reactor.grids.hexagonal as hexmod
 import armi.reactor.grids.structuredGrid as sgmod
 import armi.reactor.parameters.parameterCollections as pcmod
 from armi.reactor import assemblies, blocks, components, grids
+from armi.reactor.parameters import NoDefault, ParameterError
 from armi.reactor.reactorParameters import makeParametersReadOnly
 
 from harness import _build
@@ -52,10 +60,16 @@ STUBS = ["component.float -> identity on proxies (setTemperature); component.np 
 #  readonly_inplace_ndens : after makeParametersReadOnly(r): clad.setNumberDensity("FE", x) raises RuntimeError but the
 #                           density HAS changed (updateNumberDensities updates the dict in place before touching
 #                           p.assigned).
+#  deleted_entry_reads_marker: b.p.flux = 3.0; del b.p["flux"]   (b.p.flux reads the default 0.0, "flux" in b.p is False)
+#                           with b.retainState(): pass          (nothing assigned inside)
+#                           -> b.p.flux is the NoDefault marker CLASS and "flux" in b.p is True; the same after
+#                           copy.deepcopy(b) (__getstate__ writes the marker for a missing entry, __setstate__ stores
+#                           it as if it were a value, and the getter of a parameter WITH a default does not test for it).
 _HIDE = os.environ.get("VERIF_SHOW_KNOWN_DEFECTS", "") == ""   # set VERIF_SHOW_KNOWN_DEFECTS=1 to see them fail
 KNOWN_DEFECT_link_replaced_in_scope = False  # recorded in known_findings.jsonl
 KNOWN_DEFECT_kept_array_shape_change = False  # repaired in /repo (fix: commit 9f716d0)
 KNOWN_DEFECT_readonly_inplace_ndens = False  # repaired in /repo (fix: commit acabdbc)
+KNOWN_DEFECT_deleted_entry_reads_marker = _HIDE  # candidate, reported; while set the marker is read as "no entry"
 
 
 # ---------------------------------------------------------------------------
@@ -406,27 +420,122 @@ class Axial(Slot):
 
 
 class Cache(Slot):
-    """values cached on the block (``_setCache`` / ``_getCached``)"""
-    name = "b.cached"
+    """values cached on an object (``_setCache`` / ``_getCached``); `filled`: the cache holds an entry when the scope
+    is opened, else it is EMPTY at scope entry (``clearCache()``), as on a freshly built reactor"""
+
+    def __init__(self, level="b", filled=True):
+        self.level, self.filled = level, filled
+        self.name = "%s.cached" % level + ("" if filled else " (empty at entry)")
 
     def init(self, ctx, v):
-        v.b._setCache("pre", ctx.real("cache0", -1e3, 1e3))
+        o = getattr(v, self.level)
+        if self.filled:
+            o._setCache("pre", ctx.real("cache0" + self.level, -1e3, 1e3))
+        else:
+            o.clearCache()
+            assert not o.cached, "harness precondition: cache empty at scope entry"
 
     def draw(self, ctx, tag):
-        return (tag, ctx.real("cachePre" + tag, -1e3, 1e3), ctx.real("cacheIn" + tag, -1e3, 1e3))
+        return (tag, ctx.real("cachePre" + self.level + tag, -1e3, 1e3),
+                ctx.real("cacheIn" + self.level + tag, -1e3, 1e3))
 
     def apply(self, v, x):
         tag, pre, new = x
-        v.b._setCache("pre", pre)
-        v.b._setCache("in" + tag, new)
+        o = getattr(v, self.level)
+        o._setCache("pre", pre)
+        o._setCache("in" + tag, new)
 
     def read(self, v):
-        return (v.b._getCached("pre"), v.b._getCached("in1"), v.b._getCached("in2"), v.b._getCached("in3"))
+        o = getattr(v, self.level)
+        return (o._getCached("pre"), o._getCached("in1"), o._getCached("in2"), o._getCached("in3"))
+
+
+class Scalar(Slot):
+    """any scalar parameter (with a default) of the object at `level`: number -> number"""
+
+    def __init__(self, level, pname, lo=0.0, hi=1e6):
+        self.level, self.pname, self.lo, self.hi = level, pname, lo, hi
+        self.name = "%s.%s" % (level, pname)
+        self.rare = lo + (hi - lo) / 8
+
+    def init(self, ctx, v):
+        getattr(v, self.level).p[self.pname] = ctx.real(self.name + "0", self.lo, self.hi)
+
+    def draw(self, ctx, tag):
+        return ctx.real(self.name + tag, self.lo, self.hi)
+
+    def apply(self, v, x):
+        getattr(v, self.level).p[self.pname] = x
+
+    def read(self, v):
+        return (getattr(v, self.level).p[self.pname],)
+
+    def pd(self, v):
+        return getattr(v, self.level).p.paramDefs[self.pname]
+
+
+def read_param(o, pname):
+    """(value, has a value) through the public API: a parameter without a value raises ParameterError when read
+    (``p[name]`` / ``p.name``; ``p.get(name)`` gives None), see Parameter's getter."""
+    try:
+        x = o.p[pname]
+    except ParameterError:
+        return (None, False)
+    return (x, True)
+
+
+class Unset(Slot):
+    """parameter defined WITHOUT a default and never assigned: it has NO value when the scope is opened (reading it
+    raises ParameterError); assigned inside the scope it must be without a value again afterwards unless kept"""
+
+    def __init__(self, level, pname, lo=0.0, hi=1e3):
+        self.level, self.pname, self.lo, self.hi = level, pname, lo, hi
+        self.name = "%s.%s (unset at entry)" % (level, pname)
+
+    def init(self, ctx, v):
+        assert read_param(getattr(v, self.level), self.pname) == (None, False), "harness precondition: unset at entry"
+
+    def draw(self, ctx, tag):
+        return ctx.real("%s.%s%s" % (self.level, self.pname, tag), self.lo, self.hi)
+
+    def apply(self, v, x):
+        getattr(v, self.level).p[self.pname] = x
+
+    def read(self, v):
+        return read_param(getattr(v, self.level), self.pname)
+
+    def pd(self, v):
+        return getattr(v, self.level).p.paramDefs[self.pname]
+
+
+class DeletedEntry(Scalar):
+    """parameter WITH a default whose entry was removed with ``del p[name]`` before the scope: it reads its default
+    and ``name in p`` is False; afterwards it must read the same again unless kept"""
+
+    def __init__(self, level, pname, lo=0.0, hi=1e6):
+        Scalar.__init__(self, level, pname, lo, hi)
+        self.name += " (entry deleted)"
+
+    def init(self, ctx, v):
+        o = getattr(v, self.level)
+        o.p[self.pname] = ctx.real(self.name + "0", self.lo, self.hi)
+        del o.p[self.pname]
+
+    def read(self, v):
+        o = getattr(v, self.level)
+        x, has = o.p[self.pname], self.pname in o.p
+        if KNOWN_DEFECT_deleted_entry_reads_marker and x is NoDefault:
+            x, has = self.pd(v).default, False   # the marker is read as "no entry"
+        return (x, has)
 
 
 SLOTS = {s.name: s for s in (ChargeTime(), Power(), MgFlux(), BuByPin(), LinPow(), MgToNone(), HmBOL(), CladNdens(),
                              DuctTemp(), DuctNdens(), DuctTempChoice(), DuctNdensKeepable(), FuelOd(), BlockGrid(),
-                             Axial(), Cache())}
+                             Axial(), Cache(), Cache("b", False), Cache("a", False), Cache("clad", False),
+                             Scalar("b", "flux", 0.0, 1e16), Scalar("clad", "percentBu", 0.0, 100.0),
+                             Scalar("fuel", "percentBu", 0.0, 100.0), Scalar("a", "dischargeTime", -10.0, 1e4),
+                             Unset("fuel", "buRate"),
+                             Unset("clad", "zrFrac", 0.0, 1.0), DeletedEntry("b", "flux", 0.0, 1e16))}
 
 
 def snap(v, slots):
@@ -483,6 +592,9 @@ SINGLE = [
     ("b.spatialGrid pitch", "a axial mesh", "b.cached"),
     ("clad.numberDensities", "b.mgFlux", "fuel.od"),
     ("b.percentBuByPin", "clad.numberDensities", "a.chargeTime"),
+    # no value / empty cache when the scope is opened
+    ("fuel.buRate (unset at entry)", "b.cached (empty at entry)", "b.power"),
+    ("b.flux (entry deleted)", "clad.zrFrac (unset at entry)", "clad.cached (empty at entry)"),
 ]
 
 
@@ -491,12 +603,14 @@ SINGLE_THOROUGH = [
     ("b.linPowByPin", "b1.mgFlux", "fuel.massHmBOL", "fuel.od"),
     ("b.percentBuByPin", "b.cached", "b.spatialGrid pitch", "a axial mesh", "b.power"),
     ("fuel.od", "clad.numberDensities", "duct.temperatureInC", "b.power"),
+    ("fuel.buRate (unset at entry)", "clad.zrFrac (unset at entry)", "a.cached (empty at entry)", "b.cached (empty at entry)"),
 ]
 
 
 @harness("C16", bounds="assembly of 2 blocks x (fuel, clad with linked id, duct); per instance 3 observed quantities "
                        "(scalar / array / None / dict entry / temperature / linked dimension / grid pitch / axial "
-                       "mesh / cache): old and new values symbolic reals in physical windows; booleans: assigned in "
+                       "mesh / cache filled or EMPTY at scope entry / parameter WITHOUT a value at scope entry: no "
+                       "default and never assigned, or entry deleted): old and new values symbolic reals in physical windows; booleans: assigned in "
                        "the scope, named in the keep-set, scope opened on the assembly, the block or the clad component; new == old "
                        "arises as a branch of the real code", stubs=STUBS,
          instances={"quick": [dict(names=list(n)) for n in SINGLE],
@@ -614,14 +728,137 @@ def retain_state_nested_scopes(ctx, pre, post, names=("b.power", "clad.numberDen
                    canary_hit=hit)
 
 
+NESTED_KINDS = [   # (kind under test, companion parameter on the SAME object)
+    ("b.power", "b.flux"),                               # scalar
+    ("b.mgFlux", "b.flux"),                              # array
+    ("b.percentBuByPin", "b.flux"),                      # list
+    ("b.linPowByPin", "b.flux"),                         # None -> array
+    ("clad.numberDensities", "clad.percentBu"),          # dict entry
+    ("fuel.massHmBOL", "fuel.percentBu"),                # None -> scalar
+    ("fuel.buRate (unset at entry)", "fuel.percentBu"),  # no value -> scalar
+    ("b.cached (empty at entry)", "b.flux"),             # cache, empty when the outer scope is opened
+]
+
+
+@harness("C16", bounds="two nested scopes (outer on the assembly, inner on the assembly or the block: symbolic); per "
+                       "instance ONE quantity of a given kind (scalar / array / list / None -> array / dict entry / "
+                       "None -> scalar / no value -> scalar / empty cache) and a companion scalar parameter on the same "
+                       "object; symbolic booleans, independently: the quantity is assigned before / inside / after "
+                       "the inner scope, named in the inner / in the outer keep-set; the companion (never kept) is "
+                       "assigned before / inside (thorough: / after) the inner scope; all values fresh symbolic reals. "
+                       "Includes: assigned ONLY inside the inner scope with nothing else touched on the object",
+         stubs=STUBS,
+         instances={"quick": [dict(kind=k, companion=c) for k, c in NESTED_KINDS],
+                    "thorough": [dict(kind=k, companion=c, post=True) for k, c in NESTED_KINDS] +
+                                [dict(kind="clad.zrFrac (unset at entry)", companion="clad.percentBu", post=True),
+                                 dict(kind="a.cached (empty at entry)", companion="a.dischargeTime", post=True),
+                                 dict(kind="a.chargeTime", companion="a.dischargeTime", post=True)]},
+         max_paths=6000)
+def retain_state_nested_keep_kinds(ctx, kind, companion, post=False):
+    K, C = SLOTS[kind], SLOTS[companion]
+    slots = [K, C]
+    a = mk_assembly(2)
+    v = View(a)
+    for s in slots:
+        s.init(ctx, v)
+    keepable = K.pd(v) is not None
+    when = ("before", "inside", "after")
+    asg = {(w, K.name): ctx.bool("%s assigned %s the inner scope" % (K.name, w)) for w in when}
+    asg.update({(w, C.name): (ctx.bool("%s assigned %s the inner scope" % (C.name, w)) if (w != "after" or post)
+                              else False) for w in when})
+    kin = ctx.bool("inner keeps " + K.name) if keepable else False
+    kout = ctx.bool("outer keeps " + K.name) if keepable else False
+    innerOnBlock = ctx.bool("inner scope on block")
+    new = {(w, s.name): s.draw(ctx, t) for w, t in zip(when, ("1", "2", "3")) for s in slots}
+    kin, kout = bool(kin), bool(kout)
+    outerSet = [K.pd(v)] if kout else []
+    innerSet = [K.pd(v)] if kin else []
+
+    def assign(w):
+        for s in slots:
+            if asg[(w, s.name)]:
+                s.apply(v, new[(w, s.name)])
+
+    s0 = snap(v, slots)
+    with v.a.retainState(outerSet):
+        assign("before")
+        s1 = snap(v, slots)
+        innerRoot = "b" if innerOnBlock else "a"
+        with (v.b if innerRoot == "b" else v.a).retainState(innerSet):
+            assign("inside")
+            s2 = snap(v, slots)
+        s3 = snap(v, slots)
+        for s in slots:
+            same_value(ctx, "inner exit: %s" % s.name, s, s3[s.name],
+                       s2[s.name] if (kept(s, v, innerSet) or not under(s, innerRoot)) else s1[s.name])
+        assign("after")
+        s4 = snap(v, slots)
+    s5 = snap(v, slots)
+    for s in slots:
+        hit = None
+        if ctx.canary and s is C:
+            hit = AND(s0[s.name][0] == s.rare, asg[("inside", K.name)])
+        same_value(ctx, "outer exit: %s" % s.name, s, s5[s.name],
+                   s4[s.name] if kept(s, v, outerSet) else s0[s.name], canary_hit=hit)
+
+
+@harness("C16", bounds="assembly of 2 blocks; a dimension (symbolic choice: duct outer pitch / fuel outer diameter) "
+                       "with symbolic old and new values; symbolic booleans: the block's cache is EMPTY when the scope "
+                       "is opened (clearCache()) or filled (area asked for before); the dimension is changed by "
+                       "plain parameter assignment or by setDimension; Block.getArea() is / is not called inside; "
+                       "one scope or two nested ones; scope(s) on the block or on the assembly", stubs=STUBS,
+         max_paths=3000)
+def retain_state_derived_caches_do_not_leak(ctx):
+    a = mk_assembly(2)
+    v = View(a)
+    which = ctx.choice("dimension", ["duct.op", "fuel.od"])
+    lo, hi = (15.9, 16.5) if which == "duct.op" else (0.6, 0.75)
+    comp, dim = (v.duct, "op") if which == "duct.op" else (v.fuel, "od")
+    old = ctx.real("old", 0.0, 1.0)
+    x = ctx.real("new", 0.0, 1.0)
+    empty = ctx.bool("cache empty at scope entry")
+    plain = ctx.bool("plain parameter assignment (else setDimension)")
+    ask = ctx.bool("block area asked for inside the scope")
+    nested = ctx.bool("two nested scopes")
+    onBlock = ctx.bool("scope on the block (else on the assembly)")
+    comp.setDimension(dim, lo + (hi - lo) * old)
+    area0, vol0, carea0 = v.b.getArea(), v.b.getVolume(), comp.getArea()
+    if empty:
+        v.b.clearCache()
+        assert not v.b.cached, "harness precondition: cache empty at scope entry"
+    root = v.b if onBlock else v.a
+    outer = root.retainState()
+    inner = root.retainState() if nested else None
+    outer.__enter__()
+    if inner is not None:
+        inner.__enter__()
+    if plain:
+        comp.p[dim] = lo + (hi - lo) * x
+    else:
+        comp.setDimension(dim, lo + (hi - lo) * x)
+    if ask:
+        v.b.getArea()
+    if inner is not None:
+        inner.__exit__(None, None, None)
+    outer.__exit__(None, None, None)
+    want = area0
+    if ctx.canary:
+        want = want * ITE(AND(empty, x > 0.9, old < 0.1), 1.001, 1.0)
+    ctx.check_close("area cached inside does not leak: block area is the pre-scope area", v.b.getArea(), want,
+                    scale=300.0)
+    ctx.check_close("... block volume", v.b.getVolume(), vol0, scale=3000.0)
+    ctx.check_close("... area of the changed component", comp.getArea(), carea0, scale=300.0)
+
+
 class _Leave(Exception):
     pass
 
 
 @harness("C16", bounds="two scopes one after the other (a short history): the first on the assembly, possibly left by "
-                       "an exception (symbolic), the second on the block; two observed parameters per instance (one "
-                       "starts unassigned / None); assignments and keep-sets of both scopes symbolic", stubs=STUBS,
-         instances={"quick": [dict(names=["b.power", "b.linPowByPin"]), dict(names=["clad.numberDensities", "fuel.massHmBOL"])]},
+                       "an exception (symbolic), the second on the block; two observed quantities per instance (one "
+                       "starts as None / without a value / as an empty cache); assignments and keep-sets of both scopes symbolic", stubs=STUBS,
+         instances={"quick": [dict(names=["b.power", "b.linPowByPin"]), dict(names=["clad.numberDensities", "fuel.massHmBOL"]),
+                              dict(names=["fuel.buRate (unset at entry)", "b.cached (empty at entry)"])]},
          max_paths=6000)
 def retain_state_consecutive_scopes(ctx, names):
     slots = [SLOTS[n] for n in names]
@@ -630,7 +867,8 @@ def retain_state_consecutive_scopes(ctx, names):
     for s in slots:
         s.init(ctx, v)
     asg = {(k, s.name): ctx.bool("scope %d assigns %s" % (k, s.name)) for k in (1, 2) for s in slots}
-    keep = {(k, s.name): ctx.bool("scope %d keeps %s" % (k, s.name)) for k in (1, 2) for s in slots}
+    keep = {(k, s.name): (ctx.bool("scope %d keeps %s" % (k, s.name)) if s.pd(v) is not None else False)
+            for k in (1, 2) for s in slots}
     byExc = ctx.bool("first scope is left by an exception")
     new = {(k, s.name): s.draw(ctx, str(k)) for k in (1, 2) for s in slots}
     keep = {k: bool(x) for k, x in keep.items()}
